@@ -28,7 +28,11 @@ nothing):
         svcClose `err := m.service.Close()` = `StopOnce`: under the state lock, CAS Started→Stopping,
                  `close(t.stopCh)`; any other state: error, nothing closed
         waitDone `<-t.done`, then CAS Stopping→Stopped
-        signal   `select { case m.stopped <- errServiceContextCancelled: default: }`
+        signal   the send attempt of the loop `for { select { case m.stopped <- errServiceContextCancelled: return err; default: }; …`
+                 (sent: `ret`; channel full: on to `drain`)
+        drain    `select { case <-m.stopped: default: }` — a pending message of the service being closed gives way; back to `signal`
+                 (before "fix: recoverer: Close could lose its stop signal …" there was ONE non-blocking send, dropped when the
+                 channel was full: `stepCoreOld`)
         ret      returned (label `closeCall` starts the first Close, `closeAgain` a further one after a return)
   P…  `go Process` goroutines spawned per tick (counter `procs`), and the worker-group
       goroutines that execute the pipeline call for them (counter `workers`,
@@ -72,7 +76,7 @@ deriving DecidableEq, Repr
 inductive SPc | init | spawn | store | sel | parked | cool | respawn | clear | done
 deriving DecidableEq, Repr
 
-inductive CPc | idle | load | svcClose | waitDone | signal | ret
+inductive CPc | idle | load | svcClose | waitDone | signal | drain | ret
 deriving DecidableEq, Repr
 
 /-- what the last `Close` returned -/
@@ -100,7 +104,7 @@ structure Core where
   cpc      : CPc
   svcErr   : Bool            -- C: `err` of service.Close() is non-nil
   cres     : CRes
-  dropped  : Bool            -- ghost: some Close found the channel full and dropped its cancel signal
+  dropped  : Bool            -- ghost: some Close found the channel full and DROPPED its cancel signal (pre-fix step only)
   panicked : Bool            -- ghost: the service's own goroutine has panicked at least once
   latched  : Bool            -- service kind: false = start-once/stop-once (StateMachine: tickers, coordinator);
                              --   true = restartable with a latched close signal (result store: `close chan bool` of capacity 1,
@@ -111,13 +115,13 @@ deriving DecidableEq, Repr
 inductive CLabel
   | sInit | sSpawn | sStore | sSel | coolElapsed | sRespawn | sClear
   | gCall | gStarted | gStopSeen | gPanic | gSendNil | gSendErr | gSendStopped
-  | closeCall | closeAgain | cLoad | cSvcClose | cWaitDone | cSignal
+  | closeCall | closeAgain | cLoad | cSvcClose | cWaitDone | cSignal | cDrain
 deriving DecidableEq, Repr
 
 def allCLabels : List CLabel :=
   [.sInit, .sSpawn, .sStore, .sSel, .coolElapsed, .sRespawn, .sClear,
    .gCall, .gStarted, .gStopSeen, .gPanic, .gSendNil, .gSendErr, .gSendStopped,
-   .closeCall, .closeAgain, .cLoad, .cSvcClose, .cWaitDone, .cSignal]
+   .closeCall, .closeAgain, .cLoad, .cSvcClose, .cWaitDone, .cSignal, .cDrain]
 
 /-- the `error` value a message carries, as far as `err != nil` is concerned: 0 = nil -/
 def Msg.errCode : Msg → Nat
@@ -196,13 +200,34 @@ def stepCore (c : Core) : CLabel → Option Core
        else some { c with cpc := .signal, svcErr := true })
     else none
   | .cWaitDone => if c.cpc = .waitDone ∧ c.done then some { c with cpc := .signal, svc := .stopped } else none
-  | .cSignal =>   -- the non-blocking send, spelled out (same three cases as `send`, the last one being `default:`)
+  | .cSignal =>   -- the send attempt of Close's loop (same cases as `send`; a full channel leads to the drain attempt, never to giving up)
+    if c.cpc = .signal then
+      let res := if c.svcErr then CRes.svcRefused else CRes.ok
+      if c.spc = .parked then some { c with spc := afterRecv .cancelled, cpc := .ret, cres := res }
+      else if c.buf = none then some { c with buf := some .cancelled, cpc := .ret, cres := res }
+      else some { c with cpc := .drain }
+    else none
+  | .cDrain =>    -- `select { case <-m.stopped: default: }`: takes the pending message if there (still) is one; then the next attempt
+    if c.cpc = .drain then some { c with buf := none, cpc := .signal } else none
+
+/-- the tree before "fix: recoverer: Close could lose its stop signal and leave the watcher running": Close made ONE
+    non-blocking send and gave up when the channel was full (`default:`) -/
+def stepCoreOld (c : Core) : CLabel → Option Core
+  | .cSignal =>
     if c.cpc = .signal then
       let res := if c.svcErr then CRes.svcRefused else CRes.ok
       if c.spc = .parked then some { c with spc := afterRecv .cancelled, cpc := .ret, cres := res }
       else if c.buf = none then some { c with buf := some .cancelled, cpc := .ret, cres := res }
       else some { c with cpc := .ret, cres := res, dropped := true }
     else none
+  | .cDrain => none
+  | l => stepCore c l
+
+def runCOld : Core → List CLabel → Option Core
+  | c, [] => some c
+  | c, l :: ls => match stepCoreOld c l with
+    | some c' => runCOld c' ls
+    | none => none
 
 /-- full state: the core plus the goroutines that do not interact with it -/
 structure State where
